@@ -1,9 +1,16 @@
 import Iavl.Model.KV
+import Iavl.Lemmas.FetchFaults
+import Iavl.Lemmas.V2EvictCorrect
 /-
   C17 — storage failures surface as errors. Decided on the implementation by single-fault
   enumeration (harness mode `fault`): every storage call of every operation fails in turn. The
   model contributes the reference answers (fault-free result of every operation, C01/C02/C03) and
   the contract fact used to judge the store left behind: reads never write.
+  Proved in addition (third session) on the model of a lazily loaded tree (`Model/V2Evict.lean`: child pointers that
+  are nil are fetched by node key, as `getLeftNode` / `getRightNode` do in v1 and v2): when any set of fetches fails,
+  every walk that propagates the error of a fetch - which is how the model's walks are written - reports the failure
+  or gives exactly the fault-free answer; a shorter iteration or an absence is impossible. This is the verdict rule
+  of the enumeration as a theorem; that the Go walks do propagate every fetch error is what the enumeration decides.
 -/
 namespace Iavl.Props.C17
 open Iavl
@@ -13,5 +20,49 @@ open Iavl
 theorem reads_leave_store (s : KVState) (k st en : Option Bytes) (rev : Bool) :
     (kvStep s (.get k)).1 = s ∧ (kvStep s (.has k)).1 = s ∧ (kvStep s (.iter st en rev)).1 = s :=
   reads_pure s k st en rev
+
+variable {K V : Type}
+
+/-- **a failed fetch is an error or the fault-free answer** (any tree shape with any children unloaded, any set of
+    failing fetches): whatever a lookup, an existence test, a size query, a full or a ranged iteration (forward,
+    reverse, inclusive or not) returns as a value under the failing store is what the intact store returns -/
+theorem failed_fetch_is_an_error_or_the_fault_free_answer [Ord K] (st' st : Nat → Option (Node K V))
+    (hf : Faulty st' st) (e : ENode K V) :
+    (∀ key a, e.get st' key = some a → e.get st key = some a) ∧
+    (∀ key a, e.has st' key = some a → e.has st key = some a) ∧
+    (∀ n, e.size st' = some n → e.size st = some n) ∧
+    (∀ xs, e.toList st' = some xs → e.toList st = some xs) ∧
+    (∀ s en asc incl xs, e.range st' s en asc incl = some xs → e.range st s en asc incl = some xs) :=
+  ⟨fun key _ h => get_faulty hf key e h, fun key _ h => has_faulty hf key e h, fun _ h => size_faulty hf e h,
+   fun _ h => toList_faulty hf e h, fun s en asc incl _ h => range_faulty hf s en asc incl e h⟩
+
+/-- ... in particular for a tree whose nodes were all written and any part of which is unloaded: an iteration under
+    failing fetches is the complete iteration of the tree or an error, never a prefix of it -/
+theorem iteration_is_complete_or_fails [Ord K] (st' st : Nat → Option (Node K V)) (hf : Faulty st' st)
+    (ref : Node K V → Nat) (policy : Nat → Node K V → Bool) (d : Nat) (t : Node K V) (hs : Saved st ref t)
+    (s en : Option K) (asc incl : Bool) :
+    (evict policy ref d t).range st' s en asc incl = none ∨
+    (evict policy ref d t).range st' s en asc incl = some (t.range s en asc incl) := by
+  cases h : (evict policy ref d t).range st' s en asc incl with
+  | none => exact Or.inl rfl
+  | some xs =>
+    right
+    have := range_faulty hf s en asc incl _ h
+    rw [range_evict st ref policy s en asc incl t d hs] at this
+    exact this.symm ▸ rfl
+
+/-- non-vacuity, both outcomes: the right leaf unloaded; the fetch of it failing gives an error for a full iteration
+    and the complete answer for an iteration that never needs it -/
+example :
+    let l : Node Bytes Bytes := .leaf [97] [1] (some 1)
+    let r : Node Bytes Bytes := .leaf [98] [2] (some 1)
+    let e : ENode Bytes Bytes := .inner [98] 1 2 (some 1) (.leaf [97] [1] (some 1)) (.stub 7)
+    let st : Nat → Option (Node Bytes Bytes) := fun n => if n = 7 then some r else none
+    let st' : Nat → Option (Node Bytes Bytes) := fun _ => none
+    e.range st none none true false = some [([97], [1]), ([98], [2])] ∧
+    e.range st' none none true false = none ∧
+    e.range st' none (some [98]) true false = some [([97], [1])] ∧
+    l.toList = [([97], [1])] := by
+  decide
 
 end Iavl.Props.C17
